@@ -1993,6 +1993,9 @@ class Parallel(Logger):
         # callback.
         with self._lock:
             self._call_id = uuid4().hex
+            # Batches that an aborted previous call left in the look-ahead
+            # queue must not be dispatched as part of this call.
+            self._ready_batches = queue.Queue()
 
         # self._effective_n_jobs should be called in the Parallel.__call__
         # thread only -- store its value in an attribute for further queries.
